@@ -12,6 +12,7 @@
 
 #include <string.h>
 #include <stdlib.h>
+#include <time.h>
 #include <limits.h>
 /* a visit function stops a traversal with "a non-zero value": any of them, which the traversal must hand back unchanged */
 static const int stopvals[12] = { -3, -2, -1, 11, 1, 2, 3, 256, 65536, -65536, INT_MIN, INT_MAX };
@@ -531,7 +532,11 @@ static void deep_tree(uint64_t sel, uint64_t seed)
 #define DEEP_ADD(k, hint) do { struct telem *e_ = &pool[n]; e_->magic = MAGIC; e_->tail = ~MAGIC; e_->id = (int)n; e_->mark = 0; e_->tree = 9; e_->key = (k); \
         g_inlib = 1; cstl_bintree_insert(&dt, e_, (hint)); g_inlib = 0; n++; } while (0)
     d0 = (int)(splitmix64(&x) % (uint64_t)(D - 3100)); d1 = d0 + 600 + (int)(splitmix64(&x) % 2400);
+    { clock_t t0 = clock();
     for (d = 0; d < D; d++) {
+        /* an implementation that ignores the hint is correct and makes this loop quadratic: if the build is that slow the chain
+         * stays as long as it has become */
+        if ((d & 1023) == 1023 && d >= 4095 && (double)(clock() - t0) / CLOCKS_PER_SEC > 8.0) { D = d; PROBE("deep_tree_cut_short_slow_insert"); break; }
         /* chain keys 32 apart; the teeth of level d get keys strictly between the chain keys of levels d-1 and d */
         int k = right ? 64 + 32 * d : 64 + 32 * (D - d);
         DEEP_ADD(k, prev);
@@ -548,6 +553,7 @@ static void deep_tree(uint64_t sel, uint64_t seed)
             }
             nt++;
         }
+    }
     }
 #undef DEEP_ADD
     if (cstl_bintree_size(&dt) != n) VIOLP("C01", "size", "deep tree reports size %zu, reference has %zu", cstl_bintree_size(&dt), n);
